@@ -21,6 +21,9 @@ def run(ctx, rep):
     rep.rule("L3", "only component [1] (the distribution) of each dataset element is read; the sample count never is", floor=1)
     rep.rule("L4", "no value is carried from one dataset to the next (only appends to the result lists cross iterations)", floor=2)
     rep.rule("L5", "the result turns each estimate into an object through the template's generate_from_var; single accessors use element 0", floor=3)
+    rep.rule("L6", "the single-dataset entry point is the sequence routine on a one-element sequence: every argument is handed on as "
+                   "received (no renormalisation, filtering or re-binding of the data on the way)", floor=1)
+    check_single_is_sequence_of_one(ctx, rep, "L6", E + "linear_estimator.LinearEstimator")
     f = ix.func(E + "linear_estimator.LinearEstimator.calc_estimate_sequence")
     loops = [n for n in own_nodes(f.node) if isinstance(n, ast.For) and unparse(n.iter) == "empi_dists_sequence"]
     if len(loops) != 1:
@@ -191,3 +194,65 @@ def _check_normal_equations(rep, f, site, v, lv):
         rep.violation("L1", f, site, why, node=site)
     else:
         rep.undecided("L1", f, site, why)
+
+
+# ------------------------------------------------------------------------------ single = sequence of one
+def check_single_is_sequence_of_one(ctx, rep, rule: str, cls_qualname: str):
+    """calc_estimate(q, data, ...) must be calc_estimate_sequence(q, [data], ...) with every argument handed on as received."""
+    from ..resolve import bind_call
+    c = ctx.ix.cls(cls_qualname)
+    f = c.methods.get("calc_estimate")
+    seq = c.lookup("calc_estimate_sequence")
+    if f is None or seq is None:
+        rep.undecided(rule, cls_qualname, "calc_estimate", "calc_estimate / calc_estimate_sequence not defined on the class")
+        return
+    con = "%s.calc_estimate -> calc_estimate_sequence" % c.name
+    calls = [n for n in own_nodes(f.node) if isinstance(n, ast.Call) and isinstance(n.func, ast.Attribute) and n.func.attr == "calc_estimate_sequence"
+             and unparse(n.func.value) == "self"]
+    rets = returns(f)
+    if len(calls) != 1 or len(rets) != 1:
+        rep.undecided(rule, f, con, "expected one delegation and one return")
+        return
+    call = calls[0]
+    # parameters must reach the call as received: no re-binding, no in-place update
+    params = [p for p in f.params if p != "self"]
+    touched = []
+    for n in own_nodes(f.node):
+        tg = []
+        if isinstance(n, ast.Assign):
+            tg = n.targets
+        elif isinstance(n, (ast.AugAssign, ast.AnnAssign)):
+            tg = [n.target]
+        elif isinstance(n, (ast.For, ast.comprehension)):
+            tg = [n.target]
+        for t in tg:
+            for x in ast.walk(t):
+                if isinstance(x, ast.Name) and x.id in params:
+                    touched.append((x.id, n))
+    b, _ = bind_call(call, seq, True)
+    problems = []
+    for name, n in touched:
+        problems.append("parameter `%s` is re-bound or updated (line %d) before the delegation: the single-dataset path then estimates from "
+                        "different data / settings than the same dataset inside a sequence" % (name, n.lineno))
+    seqp = [p for p in seq.params if p != "self"]
+    for p in params:
+        # the like-named parameter of the sequence routine (empi_dists -> empi_dists_sequence)
+        tgt = p if p in seqp else next((q for q in seqp if q.startswith(p)), None)
+        if tgt is None:
+            continue
+        e = b.get(tgt)
+        want = "[%s]" % p if tgt != p else p
+        if e is None:
+            problems.append("`%s` is not handed on (the sequence routine uses its default for `%s`)" % (p, tgt))
+        elif unparse(e) != want:
+            problems.append("`%s` receives `%s`, expected `%s`" % (tgt, unparse(e), want))
+    rv = rets[0].value
+    defs = single_defs(f)
+    if isinstance(rv, ast.Name) and rv.id in defs:
+        rv = defs[rv.id]
+    if rv is not call:
+        problems.append("the value returned is `%s`, not the delegation's result" % unparse(rets[0].value))
+    if problems:
+        rep.violation(rule, f, con, "; ".join(problems), node=call)
+    else:
+        rep.holds(rule, f, con, "all %d arguments handed on as received, data wrapped as a one-element sequence" % len(params), node=call)
